@@ -32,11 +32,33 @@ class DaqFile(object):
     def chunk_size(self):
         return sum(n * w for n, w in zip(self.buflen, self.widths))
 
+    def seg_buflen(self, seg):
+        """Rows per raw buffer in this segment: the channels switched off ('drop' segments) no longer contribute."""
+        off = seg.get('inactive', set())
+        out = [0] * len(self.widths)
+        for ch in self.chans:
+            if ch['name'] in off:
+                continue
+            for s in ch['scalers']:
+                out[s['buf']] = max(out[s['buf']], ch['n'])
+        return out
+
+    def seg_chunk_size(self, seg):
+        return sum(n * w for n, w in zip(self.seg_buflen(seg), self.widths))
+
     def path(self, ch):
         return qpath(ch['group'], ch['name'])
 
     # ------------------------------------------------------------------ encoding
-    def _meta(self, e, kind):
+    def _meta(self, e, kind, seg=None):
+        if kind == 'drop':
+            # channels listed without data (0xFFFFFFFF) in a segment that continues the object list
+            names = sorted(seg['dropped_here'])
+            out = [struct.pack(e + 'I', len(names))]
+            for ch in self.chans:
+                if ch['name'] in names:
+                    out.append(enc_str(e, self.path(ch)) + struct.pack(e + 'II', 0xFFFFFFFF, 0))
+            return b''.join(out)
         extra = self.extra_objects if kind == 'full' else []
         out = [struct.pack(e + 'I', len(self.chans) + len(extra))]
         for p in extra:
@@ -64,10 +86,13 @@ class DaqFile(object):
 
     def _chunk_bytes(self, seg, e, k):
         out = bytearray()
-        for b, (n, w) in enumerate(zip(self.buflen, self.widths)):
+        off = seg.get('inactive', set())
+        for b, (n, w) in enumerate(zip(self.seg_buflen(seg), self.widths)):
             buf = bytearray(seg['pad'][k][b])
             assert len(buf) == n * w
             for ch in self.chans:
+                if ch['name'] in off:
+                    continue
                 for s in ch['scalers']:
                     if s['buf'] != b:
                         continue
@@ -92,7 +117,7 @@ class DaqFile(object):
         for i, seg in enumerate(self.segs):
             e = (endians[i] if endians else seg['endian'])
             kind = seg['meta']
-            meta = b'' if kind == 'none' else self._meta(e, kind)
+            meta = b'' if kind == 'none' else self._meta(e, kind, seg)
             data = b''.join(self._chunk_bytes(seg, e, k) for k in range(seg['nchunks']))
             mask = (TOC['raw'] | TOC['daqmx'] | (TOC['meta'] if kind != 'none' else 0) |
                     (TOC['newobj'] if kind == 'full' else 0) | (TOC['big'] if e == '>' else 0))
@@ -111,15 +136,16 @@ class DaqFile(object):
 
     def expected(self, ch, s):
         """All values of one scaler over the whole file (bit values for digital lines)."""
-        parts = [np.asarray(v, dtype=self.scaler_dtype(s)) for seg in self.segs for v in seg['values'][(ch['name'], s['id'])]]
+        parts = [np.asarray(v, dtype=self.scaler_dtype(s)) for seg in self.segs if ch['name'] not in seg.get('inactive', set())
+                 for v in seg['values'][(ch['name'], s['id'])]]
         if not parts:
             return np.zeros(0, dtype=self.scaler_dtype(s))
         return np.concatenate(parts)
 
-    def rows_available(self, avail):
+    def rows_available(self, avail, buflen=None):
         """Complete rows per buffer in a chunk cut after `avail` bytes (buffers are laid out one after another)."""
         rows, rem = [], avail
-        for n, w in zip(self.buflen, self.widths):
+        for n, w in zip(buflen if buflen is not None else self.buflen, self.widths):
             tot = n * w
             if rem >= tot:
                 rows.append(n)
@@ -134,32 +160,37 @@ class DaqFile(object):
         of the cut chunk (for scalers spread over several buffers: rows complete in all of them)."""
         total = 0
         for seg, l in zip(self.segs, lay):
+            active = ch['name'] not in seg.get('inactive', set())
             if cut >= l['end']:
-                total += ch['n'] * seg['nchunks']
+                total += ch['n'] * seg['nchunks'] if active else 0
                 continue
             if cut <= l['data_start']:
                 break
             avail = cut - l['data_start']
-            cs = self.chunk_size
+            cs = self.seg_chunk_size(seg)
             full, rem = divmod(avail, cs) if cs else (0, 0)
-            rows = self.rows_available(rem)
-            total += full * ch['n'] + min(rows[s['buf']] for s in ch['scalers'])
+            rows = self.rows_available(rem, self.seg_buflen(seg))
+            if active:
+                total += full * ch['n'] + min(rows[s['buf']] for s in ch['scalers'])
             break
         return total
+
+    def total_len(self, ch):
+        return sum(ch['n'] * seg['nchunks'] for seg in self.segs if ch['name'] not in seg.get('inactive', set()))
 
     def describe(self):
         return {'digital': self.digital, 'widths': self.widths, 'buflen': self.buflen,
                 'chans': [{'name': c['name'], 'raw': c['raw'], 'n': c['n'], 'scalers': c['scalers']} for c in self.chans],
-                'segs': [(s['endian'], s['nchunks'], s['meta']) for s in self.segs]}
+                'segs': [(s['endian'], s['nchunks'], s['meta'], sorted(s.get('inactive', ()))) for s in self.segs]}
 
     def signature(self):
         return (self.digital, tuple(self.widths), tuple(self.buflen),
                 tuple((c['raw'], tuple((s['t'], s['buf'], s.get('off', s.get('bit'))) for s in c['scalers'])) for c in self.chans),
-                tuple((s['endian'], s['nchunks'], s['meta']) for s in self.segs))
+                tuple((s['endian'], s['nchunks'], s['meta'], tuple(sorted(s.get('inactive', ())))) for s in self.segs))
 
 
 def gen_daqmx(rng, max_chans=5, max_bufs=3, max_segs=3, allow_be=True, multi_buffer_channels=True, chunks=(1, 1, 2, 3, 4),
-              lens=(1, 2, 3, 5)):
+              lens=(1, 2, 3, 5), allow_drop=False):
     f = DaqFile()
     nbuf = rng.randint(1, max_bufs)
     nchan = rng.randint(1, max_chans)
@@ -197,12 +228,26 @@ def gen_daqmx(rng, max_chans=5, max_bufs=3, max_segs=3, allow_be=True, multi_buf
     f.buflen = [buflen[i] if i in usedbuf else 0 for i in range(nbuf)]
     if rng.random() < 0.5:
         f.extra_objects = ['/', qpath('G')][:rng.randint(1, 2)]
+    inactive = set()
     for si, e in enumerate(endians):
         nch = rng.choice(chunks)
-        seg = {'endian': e, 'nchunks': nch, 'meta': 'full' if si == 0 else rng.choice(['none', 'same', 'full']),
-               'values': {}, 'pad': []}
+        kind = 'full' if si == 0 else rng.choice(['none', 'same', 'full', 'drop'] if allow_drop else ['none', 'same', 'full'])
+        seg = {'endian': e, 'nchunks': nch, 'meta': kind, 'values': {}, 'pad': []}
+        if kind in ('full', 'same'):
+            inactive = set()
+        elif kind == 'drop':
+            cands = [c['name'] for c in f.chans if c['name'] not in inactive]
+            if len(cands) >= 2:
+                drop = set(rng.sample(cands, rng.randint(1, len(cands) - 1)))
+                seg['dropped_here'] = drop
+                inactive = inactive | drop
+            else:
+                seg['meta'] = 'none'
+        seg['inactive'] = set(inactive)
+        if f.seg_chunk_size(seg) == 0:
+            seg['nchunks'] = nch = 0
         for k in range(nch):
-            seg['pad'].append([rand_bytes(rng, n * w) for n, w in zip(f.buflen, f.widths)])
+            seg['pad'].append([rand_bytes(rng, n * w) for n, w in zip(f.seg_buflen(seg), f.widths)])
         for ch in f.chans:
             for s in ch['scalers']:
                 vs = []
